@@ -155,6 +155,9 @@ func c12Run(j c12Job) *jobReport {
 			return rep
 		}
 		rep.Reasons[fmt.Sprintf("%s %d", c.class, code)]++
+		if len(rep.Samples) < 3 && rep.Evals%97 == 5 {
+			rep.Samples = append(rep.Samples, fmt.Sprintf("%s: %s -> %d", cfg, desc, code))
+		}
 		if code == 200 {
 			rep.Accepted++
 		}
